@@ -101,6 +101,8 @@ pub struct TransformerContext {
     elem_map: HashMap<String, SvgElement>,
     /// Original state of given element; used for `reuse` elements
     original_map: HashMap<String, SvgElement>,
+    /// Number of passes over pending elements which completed none of them
+    idle_passes: u32,
     /// Stack of elements which have been started but not yet ended
     ///
     /// Note empty elements are normally not pushed onto the stack,
@@ -132,6 +134,7 @@ impl Default for TransformerContext {
         Self {
             elem_map: HashMap::new(),
             original_map: HashMap::new(),
+            idle_passes: 0,
             element_stack: Vec::new(),
             prev_element: None,
             scope_stack: Vec::new(),
@@ -419,6 +422,18 @@ impl TransformerContext {
             self.elem_map.insert(id.clone(), el.clone());
             self.original_map.entry(id).or_insert_with(|| el.clone());
         }
+    }
+
+    /// Number of distinct elements which have been resolved and registered
+    pub fn resolved_count(&self) -> usize {
+        self.elem_map.len()
+    }
+
+    /// Account for a pass over pending elements in which none of them completed;
+    /// returns false once the (document-wide) budget for such passes is used up.
+    pub fn allow_idle_pass(&mut self) -> bool {
+        self.idle_passes += 1;
+        self.idle_passes <= self.config.loop_limit
     }
 
     /// Record the as-written form of an element (the template used by `reuse`)
